@@ -636,6 +636,21 @@ def mixin_case(case):
     if sec == 'Chemistry':
         items.append(('TiO', [('gas_type', 'constant'), ('mix_ratio', '1e-7')]))
     text = du.par_text([(sec, [(S['selkey'], raw_sel)] + items)])
+    if case.get('primed') and kind == 'keys':
+        # the same composite was already built once in this process with every key set to a non-default value:
+        # nothing of that build may reach this one
+        pitems, _ = base_items(sec, sel, files, override=list(balpha))
+        for k, (dflt, ls) in list(balpha.items()) + list(malpha.items()):
+            cand = [l for l in sorted(ls) if l != 'dflt']
+            if cand:
+                pitems.append((k, du.subst(ls[cand[0]][0], files)))
+        if sec == 'Chemistry':
+            pitems.append(('TiO', [('gas_type', 'constant'), ('mix_ratio', '1e-7')]))
+        try:
+            generate(du.parser_for(d, du.par_text([(sec, [(S['selkey'], raw_sel)] + pitems)])), sec)
+            r.count('primed-build-ok')
+        except Exception:
+            r.count('primed-build-raised')
     with du.Spies() as sp:
         sp.on(base, label='B')
         sp.on(mcls, '__init_mixin__', label='M')
@@ -686,6 +701,7 @@ def enumerate_mixin(ctx):
     for sec, kw, mcls, sel in mixin_specs():
         c0 = {'sec': sec, 'mixin': kw, 'mcls': mcls, 'base': sel}
         cases.append(dict(c0, kind='keys', set=[]))
+        cases.append(dict(c0, kind='keys', set=[], primed=True))
         for kind in ['unknown_key', 'unknown_mixin', 'unknown_base', 'reversed']:
             cases.append(dict(c0, kind=kind, set=[]))
         base = klass_of(sec, sel)
